@@ -682,13 +682,13 @@ Section Generic.
       apply (check_write_disabled lg (c_lvl c) _ [] Hen).
   Qed.
 
-  (* whole programs: With chain then a call *)
-  Lemma run_spec : forall withs lg c,
-    run' lg withs c =
-    (snd (spec_withs' lg withs) ++ fst (do_call' (fst (spec_withs' lg withs)) c),
-     snd (do_call' (fst (spec_withs' lg withs)) c)).
+  (* whole programs: With chain (with enabler changes) then a call *)
+  Lemma run_spec : forall steps lg c,
+    run' lg steps c =
+    (snd (spec_withs' lg steps) ++ fst (do_call' (fst (spec_withs' lg steps)) c),
+     snd (do_call' (fst (spec_withs' lg steps)) c)).
   Proof.
-    induction withs as [|a r IH]; intros lg c.
+    induction steps as [|[a|en] r IH]; intros lg c.
     - cbn [run spec_withs fst snd app]. destruct (do_call' lg c). reflexivity.
     - cbn [run spec_withs]. rewrite with_thm. unfold spec_sweeten.
       specialize (IH (with_ctx lg (fields_of' (items' 0 false a))) c).
@@ -696,15 +696,109 @@ Section Generic.
       destruct (run' _ r c) as [es' t] eqn:Erun.
       destruct (spec_withs' _ r) as [lg' es] eqn:Ew.
       cbn [fst snd] in *. injection IH as -> ->. rewrite app_assoc. reflexivity.
+    - cbn [run spec_withs]. unfold set_en. apply IH.
   Qed.
 
-  Lemma spec_withs_en : forall withs lg,
-    lg_en (fst (spec_withs' lg withs)) = lg_en lg /\ lg_dev (fst (spec_withs' lg withs)) = lg_dev lg.
+  (* the enabler seen by the call is the last one installed; Development() never changes *)
+  Lemma spec_withs_en : forall steps lg,
+    lg_en (fst (spec_withs' lg steps)) = final_en V (lg_en lg) steps /\
+    lg_dev (fst (spec_withs' lg steps)) = lg_dev lg.
   Proof.
-    induction withs as [|a r IH]; intros lg; [split; reflexivity|].
-    cbn [spec_withs]. destruct (spec_sweeten' a) as [fs cs].
-    specialize (IH {| lg_ctx := lg_ctx lg ++ fs; lg_en := lg_en lg; lg_dev := lg_dev lg |}).
-    destruct (spec_withs' _ r) as [lg' es]. cbn [fst] in *. exact IH.
+    induction steps as [|[a|en] r IH]; intros lg; [split; reflexivity| |].
+    - cbn [spec_withs final_en]. destruct (spec_sweeten' a) as [fs cs].
+      specialize (IH {| lg_ctx := lg_ctx lg ++ fs; lg_en := lg_en lg; lg_dev := lg_dev lg |}).
+      destruct (spec_withs' _ r) as [lg' es]. cbn [fst] in *. exact IH.
+    - cbn [spec_withs final_en].
+      exact (IH {| lg_ctx := lg_ctx lg; lg_en := en; lg_dev := lg_dev lg |}).
+  Qed.
+
+  (* ---- the gate: an arbitrary enabler predicate ---- *)
+  (* SugaredLogger.log / logln return early exactly when [sugar_gate] is false ... *)
+  Lemma slog_gate : forall lg lvl template fmt_args sprintf sprint context,
+    slog' lg lvl template fmt_args sprintf sprint context =
+    if sugar_gate lg lvl then check_write' lg lvl (get_message' template fmt_args sprintf sprint) context
+    else ([], TNone).
+  Proof.
+    intros. unfold slog, sugar_gate. destruct ((lvl <? DPanicLevel)%Z && negb (lg_en lg lvl)); reflexivity.
+  Qed.
+  Lemma slogln_gate : forall lg lvl sprintln context,
+    slogln' lg lvl sprintln context =
+    if sugar_gate lg lvl then
+      match get_messageln sprintln with None => ([], TCrash) | Some msg => check_write' lg lvl msg context end
+    else ([], TNone).
+  Proof.
+    intros. unfold slogln, sugar_gate. destruct ((lvl <? DPanicLevel)%Z && negb (lg_en lg lvl)); reflexivity.
+  Qed.
+  (* ... and [sugar_gate] is: the core's enabler accepts the level, or the level is DPanic or above *)
+  Theorem gate_iff : forall (lg : logger F) lvl,
+    sugar_gate lg lvl = true <-> lg_en lg lvl = true \/ (DPanicLevel <= lvl)%Z.
+  Proof.
+    intros lg lvl. unfold sugar_gate. rewrite negb_true_iff, andb_false_iff, negb_false_iff, Z.ltb_ge. tauto.
+  Qed.
+  (* every family goes through that gate and nothing else before Logger.Check *)
+  Theorem call_gate : forall lg c, sugar_gate lg (c_lvl c) = false -> do_call' lg c = ([], TNone).
+  Proof.
+    intros lg c H. unfold do_call. destruct (c_fam c); rewrite ?slog_gate, ?slogln_gate, H; reflexivity.
+  Qed.
+
+  Theorem gate_thm : forall lg c,
+    (sugar_gate lg (c_lvl c) = true <-> lg_en lg (c_lvl c) = true \/ (DPanicLevel <= c_lvl c)%Z) /\
+    (sugar_gate lg (c_lvl c) = false -> do_call' lg c = ([], TNone)).
+  Proof. intros lg c. split; [apply gate_iff|apply call_gate]. Qed.
+
+  (* one logging call, level enabled: the shape of the result for ANY message (no guard on the template) *)
+  Lemma call_enabled_shape : forall lg c, lg_en lg (c_lvl c) = true -> fmt_facts c ->
+    let its := items' 0 false (call_context c) in
+    exists msg,
+      do_call' lg c =
+        (spec_diag_entries lg (diag_calls_of' its) ++ [Build_entry (c_lvl c) msg (lg_ctx lg ++ fields_of' its)],
+         terminal lg (c_lvl c)).
+  Proof.
+    intros lg c Hen Hfmt its. unfold do_call, call_context, fmt_facts in *.
+    destruct (c_fam c) eqn:Efam; unfold slog, slogln; rewrite Hen; cbn [negb]; rewrite andb_false_r.
+    - eexists. apply check_write_enabled. exact Hen.
+    - eexists. apply (check_write_enabled lg (c_lvl c) _ [] Hen).
+    - eexists. apply (check_write_enabled lg (c_lvl c) _ [] Hen).
+    - destruct Hfmt as [m Hm]. rewrite Hm, message_ln. eexists.
+      apply (check_write_enabled lg (c_lvl c) _ [] Hen).
+  Qed.
+
+  Lemma spec_diag_entries_level : forall (lg : logger F) cs e,
+    In e (spec_diag_entries lg cs) -> en_lvl e = ErrorLevel /\ lg_en lg ErrorLevel = true.
+  Proof.
+    intros lg cs e H. unfold spec_diag_entries in H. destruct (lg_en lg ErrorLevel); [|contradiction].
+    apply in_map_iff in H. destruct H as [x [<- _]]. split; reflexivity.
+  Qed.
+
+  (* an entry of the call: at the call's level, carrying context ++ well-formed arguments *)
+  Definition delivered (lg : logger F) (c : call V) (es : list (entry F)) : Prop :=
+    exists e, In e es /\ en_lvl e = c_lvl c /\
+              en_fields e = lg_ctx lg ++ fields_of' (items' 0 false (call_context c)).
+
+  (* C14_gate: for an ARBITRARY enabler predicate, any level (named or not) and every family, the
+     call's entry is delivered exactly when the core's enabler accepts the level *)
+  Theorem delivers_iff_enabled : forall lg c, fmt_facts c ->
+    (delivered lg c (fst (do_call' lg c)) <-> lg_en lg (c_lvl c) = true).
+  Proof.
+    intros lg c Hfmt. split.
+    - intros [e [Hin [Hlvl _]]]. destruct (lg_en lg (c_lvl c)) eqn:Een; [reflexivity|exfalso].
+      destruct (call_disabled lg c Een Hfmt) as [H|H]; rewrite H in Hin; cbn [fst] in Hin; [contradiction|].
+      apply spec_diag_entries_level in Hin. destruct Hin as [He Hon].
+      rewrite Hlvl in He. rewrite He in Een. rewrite Een in Hon. discriminate.
+    - intros Hen. destruct (call_enabled_shape lg c Hen Hfmt) as [msg H]. rewrite H. cbn [fst].
+      eexists. split; [apply in_or_app; right; left; reflexivity|]. split; reflexivity.
+  Qed.
+
+  (* the same over a whole history in which the enabler moves: what counts is the predicate in
+     force when the call is made *)
+  Theorem history_delivers_iff : forall lg steps c, fmt_facts c ->
+    let lg' := fst (spec_withs' lg steps) in
+    exists call_es, fst (run' lg steps c) = snd (spec_withs' lg steps) ++ call_es /\
+      (delivered lg' c call_es <-> final_en V (lg_en lg) steps (c_lvl c) = true).
+  Proof.
+    intros lg steps c Hfmt lg'. exists (fst (do_call' lg' c)). split.
+    - rewrite run_spec. reflexivity.
+    - rewrite <- (proj1 (spec_withs_en steps lg)). apply delivers_iff_enabled. exact Hfmt.
   Qed.
 
   (* C14_total at the level of programs: no index panic, for any logger, chain and call *)
@@ -774,22 +868,17 @@ Proof.
   rewrite run_spec.
   set (lg := dec_logger i) in *. set (c := dec_call i) in *.
   destruct (W spec_withs lg (dec_withs i)) as [lg' wes] eqn:Ew. cbn [fst snd].
-  assert (Hen' : lg_en lg' = lg_en lg).
-  { pose proof (spec_withs_en sx sx w_as_field w_is_error w_as_string w_any w_named_error w_array_invalid (dec_withs i) lg) as H.
-    rewrite Ew in H. cbn [fst] in H. exact (proj1 H). }
   unfold spec_sweeten.
   set (its := items sx sx w_as_field w_is_error w_as_string 0 false (call_context c)).
-  destruct (lg_en lg (c_lvl c)) eqn:Een.
-  - assert (Een' : lg_en lg' (c_lvl c) = true) by (rewrite Hen'; exact Een).
-    destruct (call_enabled sx sx w_as_field w_is_error w_as_string w_any w_named_error w_array_invalid lg' c Een' Hfacts Hne)
+  destruct (lg_en lg' (c_lvl c)) eqn:Een'.
+  - destruct (call_enabled sx sx w_as_field w_is_error w_as_string w_any w_named_error w_array_invalid lg' c Een' Hfacts Hne)
       as [msg [Hmsg Hcall]].
     fold its in Hcall. rewrite Hcall. cbn [fst snd sx_nth sx_l nth].
     rewrite (term_code_ok _ (terminal_not_crash sx lg' (c_lvl c))). cbn [andb].
     unfold enc_entries. cbn [sx_l]. rewrite app_assoc, map_app. cbn [map]. rewrite rev_snoc_match, rev_involutive.
     rewrite sx_eqb_refl. cbn [andb enc_entry sx_nth sx_l nth sx_b en_lvl en_msg en_fields].
     rewrite Hmsg, !sx_eqb_refl. reflexivity.
-  - assert (Een' : lg_en lg' (c_lvl c) = false) by (rewrite Hen'; exact Een).
-    destruct (call_disabled sx sx w_as_field w_is_error w_as_string w_any w_named_error w_array_invalid lg' c Een' Hfacts)
+  - destruct (call_disabled sx sx w_as_field w_is_error w_as_string w_any w_named_error w_array_invalid lg' c Een' Hfacts)
       as [Hcall|Hcall]; fold its in Hcall; rewrite Hcall; cbn [fst snd sx_nth sx_l nth enc_entries].
     + rewrite app_nil_r. rewrite (term_code_ok TNone) by discriminate. cbn [andb].
       rewrite sx_eqb_refl. reflexivity.
@@ -797,10 +886,33 @@ Proof.
       rewrite sx_eqb_refl, orb_true_r. reflexivity.
 Qed.
 
+(* ---- the enabler on the wire: every finite set of levels and every threshold is expressible ---- *)
+Lemma dec_en_set : forall ls l, dec_en (SL [SZ 0; SL (map SZ ls)]) l = true <-> In l ls.
+Proof.
+  intros ls l. unfold dec_en. cbn [sx_nth sx_l nth sx_z]. rewrite Z.eqb_refl, existsb_exists. split.
+  - intros [x [Hin Heq]]. apply in_map_iff in Hin. destruct Hin as [y [<- Hy]]. cbn [sx_z] in Heq.
+    apply Z.eqb_eq in Heq. subst. exact Hy.
+  - intros Hin. exists (SZ l). split; [apply in_map; exact Hin|apply Z.eqb_refl].
+Qed.
+Lemma dec_en_threshold : forall k min l, k <> 0%Z -> dec_en (SL [SZ k; SZ min]) l = (min <=? l)%Z.
+Proof.
+  intros k min l Hk. unfold dec_en. cbn [sx_nth sx_l nth sx_z].
+  destruct (k =? 0)%Z eqn:E; [apply Z.eqb_eq in E; contradiction|reflexivity].
+Qed.
+Theorem wire_enabler : 
+  (forall ls l, dec_en (SL [SZ 0; SL (map SZ ls)]) l = true <-> In l ls) /\
+  (forall k min l, k <> 0%Z -> dec_en (SL [SZ k; SZ min]) l = (min <=? l)%Z).
+Proof. split; [exact dec_en_set|exact dec_en_threshold]. Qed.
+
+(* a plain zapcore.Level(-3) as the enabler, Logw(Level(-2), "m", ex_args...) -- delivered;
+   an AtomicLevel at Info moved to -3 after a With -- delivered; moved the other way -- not *)
+Definition gate_case (en : sx) (steps : list sx) (lvl : Z) (args : list sx) : sx :=
+  SL [ en; SZ 0; SL steps; SL [SZ 0; SZ lvl; SB [x6d]; SL args; SB []; SB []; SB [x0a]; SZ 1] ].
+
 (* ---- the known deviation, on the faithful model: Infof("", 1, 2) ---- *)
 Definition kf_witness : sx :=
   let one := SL [SZ 3] in
-  SL [ SL [SZ 1; SZ 1; SZ 1; SZ 1; SZ 1; SZ 1; SZ 1]; SZ 0; SL [];
+  SL [ SL [SZ 1; SZ (-1)]; SZ 0; SL [];
        SL [SZ 2; SZ 0; SB []; SL [one; one];
            SB [x31; x20; x32];                                              (* Sprint(1, 2) = "1 2" *)
            SB [x25; x21; x28; x45; x58; x54; x52; x41; x20; x69; x6e; x74; x3d; x31; x2c; x20;
@@ -828,5 +940,5 @@ Definition ex_args : list sx :=
   [ex_str [x6b]; ex_int 1; ex_err 1; ex_err 2; ex_int 7; ex_int 8; ex_fld [x66]; ex_str [x64]].
 (* With(ex_args...) then Infow("m", ex_args...) on a logger with every level enabled *)
 Definition ex_case : sx :=
-  SL [ SL [SZ 1; SZ 1; SZ 1; SZ 1; SZ 1; SZ 1; SZ 1]; SZ 0; SL [SL [SZ 0; SL ex_args]];
+  SL [ SL [SZ 1; SZ (-1)]; SZ 0; SL [SL [SZ 0; SZ 0; SL ex_args]];
        SL [SZ 0; SZ 0; SB [x6d]; SL ex_args; SB []; SB []; SB [x0a]; SZ 0] ].
